@@ -211,16 +211,16 @@ where
                 ]
             })
             .sorted_unstable_by_key(|x| x.0)
-            .chunk_by(|x| (x.0, x.1 < V::zero()));
+            .chunk_by(|x| x.0);
         let mut point_groups = point_groups.into_iter();
 
         let chrom = bdgs[0].chrom();
-        let ((mut prev_pos, _), first_group) = point_groups.next().unwrap();
+        let (mut prev_pos, first_group) = point_groups.next().unwrap();
         let mut acc_val = first_group.into_iter().map(|x| x.1).sum();
         let mut prev_bedgraph = BedGraph::new(chrom, prev_pos, prev_pos, acc_val);
 
         let mut result = point_groups
-            .flat_map(|((pos, _), group)| {
+            .flat_map(|(pos, group)| {
                 let value_sum = group.into_iter().map(|x| x.1).sum();
                 let mut bedgraph = None;
 
